@@ -2,7 +2,8 @@
 (* Trace validation (impl -> spec) for C08 - C11.  One ndjson event per call of
    the real library:
      kind "comp"  [fmt, input, res, rt]   res = compress(input), rt = decompress(res.out)
-     kind "bigcomp" [fmt, pat, n, res, rt]  input = pat repeated to n bytes (up to 16 MiB - 1, not listed);
+     kind "bigcomp" [fmt, head, pat, tail, n, res, rt]  input of n bytes (up to 16 MiB - 1, not listed) given by
+                                          its shape: head, then pat repeated, then tail;
                                           rt = [kind, same]: own decompression compared by the harness
      kind "dec"   [entry, stream, res]    res = <entry>.decompress(stream)
      kind "bigdec" [stream, pat, n, results]  stream of 2^16 .. 2^20 bytes built by rule (n literals of an
@@ -15,7 +16,7 @@
    header / flag byte / token (DStep); when the machine reaches a terminal class
    the event is accepted iff the library's result is one the specification allows
    (StreamOKd, ResAllowed; the size bounds of C10 are judged on the "size" events).
-   A "bigcomp" event is judged in one step by the validating decoder (LZ!VRunPeriodic: same
+   A "bigcomp" event is judged in one step by the validating decoder (LZ!VRunShaped: same
    token layouts and checks, `out` replaced by the known expected output).
    A "bigdec" event is judged in one step by the closed form LZ!LitClassify (the stream's bytes
    are examined by TLC; MC_LZ ties the closed form to the decoder machine).
@@ -50,7 +51,7 @@ Accept(ev, t) ==
               /\ ev.rt.kind = "ok" /\ ev.rt.out = ev.input
     [] ev.kind = "bigcomp" ->
          /\ ev.res.kind = "ok"
-         /\ StreamOKPeriodic(ev.fmt, ev.pat, ev.n, ev.res.out)
+         /\ StreamOKShaped(ev.fmt, Shape(ev.head, ev.pat, ev.n - Len(ev.head) - Len(ev.tail), ev.tail), ev.res.out)
          /\ ev.rt.kind = "ok" /\ ev.rt.same
     [] ev.kind = "bigdec" ->
          \A k \in 1..Len(ev.results) :
